@@ -197,7 +197,8 @@ impl Monitor for C16 {
                         if a.account_flags & ACCOUNT_DISABLED != 0
                             && matches!(
                                 ix.tag,
-                                "deposit" | "withdraw" | "borrow" | "repay" | "start_flashloan"
+                                "deposit" | "withdraw" | "borrow" | "repay" | "start_flashloan" | "solend_deposit" | "solend_withdraw"
+                                    | "kamino_deposit" | "kamino_withdraw" | "drift_deposit" | "drift_withdraw"
                             )
                         {
                             self.cov.probe("disabled_account_op_rejected");
@@ -232,7 +233,8 @@ impl Monitor for C16 {
                     if disabled
                         && matches!(
                             ix.tag,
-                            "deposit" | "withdraw" | "borrow" | "repay" | "start_flashloan"
+                            "deposit" | "withdraw" | "borrow" | "repay" | "start_flashloan" | "solend_deposit" | "solend_withdraw"
+                                | "kamino_deposit" | "kamino_withdraw" | "drift_deposit" | "drift_withdraw"
                         )
                     {
                         // a zero-amount "up to limit" deposit returns before touching anything;
